@@ -15,9 +15,10 @@ LEVEL = "exploration"
 RULE = (
     "Hypothesis draws a function kind (module-level function in a real file that is rewritten and re-imported, nested "
     "function, lambda, function of a script run as __main__, function whose file does not exist (source only in linecache)) "
-    "and a history of 1-3 sessions, each a fresh interpreter sharing one cache directory, made of steps: define version k "
+    "(plus a 'swap' kind: one definition whose code object is replaced by that of donor functions of the same file and restored) and a history of 1-3 sessions, each a fresh interpreter sharing one cache directory, made of steps: define version k "
     "(same name and module, optionally with the first line shifted), call live version j with argument a, swap the code "
-    "object of a live version.  Version k returns (k, a).  Oracle: every call of a live version whose code is version v "
+    "object of a live version or restore its original one, drop every reference to a live version (function, wrapper, "
+    "module) and garbage-collect.  Version k returns (k, a).  Oracle: every call of a live version whose code is version v "
     "returns (v, a); and for kinds with a real file, a call that the reference model (stored version + set of cached "
     "arguments, wiped when another version is called) says is cached executes the body 0 times - in particular unchanged "
     "code keeps its cache across sessions.  Non-trivial: an older version called after a newer one was called with the same "
@@ -38,13 +39,25 @@ def strategy():
         st.tuples(st.just("call"), st.integers(1, 3), st.integers(0, 2)).map(list),
         st.tuples(st.just("call"), st.integers(1, 3), st.integers(0, 2)).map(list),
         st.tuples(st.just("call"), st.integers(1, 3), st.integers(0, 1)).map(list),
-        st.tuples(st.just("swap"), st.integers(1, 3), st.integers(1, 3)).map(list),
+        st.tuples(st.just("forget"), st.integers(1, 3)).map(list),
     )
     session = st.lists(step, min_size=1, max_size=10).map(lambda s: [["def", 1, 0]] + s if s[0][0] != "def" else s)
-    return st.fixed_dictionaries({
+    redefine = st.fixed_dictionaries({
         "kind": st.sampled_from(["module", "module", "nested", "lambda", "main", "nofile"]),
         "sessions": st.lists(session, min_size=1, max_size=3),
     })
+    # code-object swapping: one definition f plus donor functions in the same file (all sources stay retrievable)
+    sstep = st.one_of(
+        st.tuples(st.just("call"), st.just(1), st.integers(0, 1)).map(list),
+        st.tuples(st.just("call"), st.just(1), st.integers(0, 1)).map(list),
+        st.tuples(st.just("swap"), st.just(1), st.integers(2, 3)).map(list),
+        st.tuples(st.just("restore"), st.just(1)).map(list),
+    )
+    swap = st.fixed_dictionaries({
+        "kind": st.just("swap"),
+        "sessions": st.lists(st.lists(sstep, min_size=1, max_size=10).map(lambda s: [["def", 1, 0]] + s), min_size=1, max_size=2),
+    })
+    return st.integers(0, 4).flatmap(lambda i: swap if i == 0 else redefine)
 
 
 def signature(spec):
@@ -83,9 +96,11 @@ def run_case(spec):
                     continue
                 if r["op"] == "def":
                     prev_last_def = r["k"]
-                if r["op"] == "swap":
+                if r["op"] in ("swap", "restore"):
                     swapped = True
-                    classes.append("code-swap")
+                    classes.append("code-" + r["op"])
+                if r["op"] == "forget":
+                    classes.append("forget-version")
                 if r["op"] != "call":
                     continue
                 v, a = r["version"], r["a"]
